@@ -7,6 +7,7 @@ import (
 	"go/constant"
 	"go/token"
 	"go/types"
+	"os"
 	"sort"
 	"strings"
 
@@ -1365,7 +1366,35 @@ func init() {
 			u.assume(st, fmt.Sprintf("(forall ((i Int)) (! %s :pattern ((select %s i))))", w, na))
 		}
 		u.hset(st, hn, hs, store(h, sx("s_arr", args[0].T), na))
-		u.note("library model: in-place sort (elements abstracted to arbitrary contents of the same slice; comparison function not run)")
+		// the new contents are a rearrangement of the old ones: every new element was there and every old element still is
+		// (for slices without repeated elements this is a permutation)
+		oldAt := func(i string) string { return sel(sel(h, sx("s_arr", args[0].T)), u.sidx(args[0].T, i)) }
+		newAt := func(i string) string { return sel(na, u.sidx(args[0].T, i)) }
+		u.sidx(args[0].T, "0")
+		inr := func(i string) string { return and(sx("<=", "0", i), sx("<", i, sx("s_len", args[0].T))) }
+		// a bijection between positions: new[i] == old[perm(i)], with inverse inv
+		perm, pinv := u.freshName("sortperm"), u.freshName("sortinv")
+		u.emit(fmt.Sprintf("(declare-fun %s (Int) Int)", perm))
+		u.emit(fmt.Sprintf("(declare-fun %s (Int) Int)", pinv))
+		u.assume(st, fmt.Sprintf("(forall ((i Int)) (! (=> %s (and %s (= %s %s) (= (%s (%s i)) i))) :pattern (%s)))",
+			inr("i"), inr("("+perm+" i)"), newAt("i"), oldAt("("+perm+" i)"), pinv, perm, newAt("i")))
+		u.assume(st, fmt.Sprintf("(forall ((j Int)) (! (=> %s (and %s (= (%s (%s j)) j) (= %s %s))) :pattern (%s)))",
+			inr("j"), inr("("+pinv+" j)"), perm, pinv, newAt("("+pinv+" j)"), oldAt("j"), oldAt("j")))
+		// ... ordered by the comparison function when that is a pure closure
+		sorted := false
+		if call, ok := in.(ssa.CallInstruction); ok && len(call.Common().Args) == 2 {
+			if ci := fr.clos[call.Common().Args[1]]; ci != nil {
+				if t, ok := fr.closureTerm(st, ci, []Val{{newAt("i"), et, ""}, {newAt("j"), et, ""}}); ok {
+					u.assume(st, fmt.Sprintf("(forall ((i Int) (j Int)) (! (=> (and (<= 0 i) (< i j) (< j (s_len %s))) (<= %s 0)) :pattern (%s %s)))", args[0].T, t, newAt("i"), newAt("j")))
+					sorted = true
+				}
+			}
+		}
+		if sorted {
+			u.note("library model: in-place sort (result is a rearrangement of the elements, ordered by the pure comparison closure)")
+		} else {
+			u.note("library model: in-place sort (result is a rearrangement of the elements; comparison function not run)")
+		}
 		return nil, true
 	}
 	models["slices.SortFunc"] = sortModel
@@ -1418,6 +1447,45 @@ func init() {
 		u.assume(st, eq(eq(e.T, "A_nil"), okT))
 		n := u.define("parsefloat", sReal, ite(okT, sx("atof", args[0].T), "0.0"))
 		return []Val{{n, types.Typ[types.Float64], ""}, e}, true
+	}
+	// bufio: a reader delivers between 0 and len(p) bytes per Read (contents arbitrary); the byte count and whether an error
+	// came with it are remembered in the ghosts $lastread / $lastreaderr
+	models["bufio.NewReader"] = func(fr *Frame, st *State, args []Val, in ssa.Instruction, pos token.Pos) ([]Val, bool) {
+		u := fr.u
+		r := u.alloc(st)
+		return []Val{{r, in.(ssa.Value).Type(), ""}}, true
+	}
+	models["(*bufio.Reader).Read"] = func(fr *Frame, st *State, args []Val, in ssa.Instruction, pos token.Pos) ([]Val, bool) {
+		u := fr.u
+		p := args[1]
+		n := u.fresh("readn", sInt)
+		u.assume(st, and(sx("<=", "0", n), sx("<=", n, sx("s_len", p.T))))
+		e := u.freshVal(st, "readerr", errT)
+		hn, hs := u.elemHeapName(types.Typ[types.Uint8]), "(Array Int (Array Int Int))"
+		h := u.hget(st, hn, hs)
+		u.markWrite(hn, sx("s_arr", p.T))
+		na := u.fresh("readbuf", "(Array Int Int)")
+		u.assume(st, fmt.Sprintf("(forall ((i Int)) (! (and (<= 0 (select %s i)) (<= (select %s i) 255) (=> (or (< i (s_off %s)) (>= i (+ (s_off %s) (s_len %s)))) (= (select %s i) (select (select %s (s_arr %s)) i)))) :pattern ((select %s i))))",
+			na, na, p.T, p.T, p.T, na, h, p.T, na))
+		u.hset(st, hn, hs, store(h, sx("s_arr", p.T), na))
+		u.hset(st, "$lastread", sInt, n)
+		u.hset(st, "$lastreaderr", sBool, not(eq(e.T, "A_nil")))
+		u.note("library model: (*bufio.Reader).Read (0..len(p) bytes, arbitrary contents; $lastread, $lastreaderr)")
+		return []Val{{n, tInt, ""}, e}, true
+	}
+	models["(*bufio.Reader).Buffered"] = func(fr *Frame, st *State, args []Val, in ssa.Instruction, pos token.Pos) ([]Val, bool) {
+		u := fr.u
+		n := u.fresh("buffered", sInt)
+		u.assume(st, sx("<=", "0", n))
+		return []Val{{n, tInt, ""}}, true
+	}
+	models["errors.Is"] = func(fr *Frame, st *State, args []Val, in ssa.Instruction, pos token.Pos) ([]Val, bool) {
+		u := fr.u
+		u.reg.declFun("errors_is", "Any Any", sBool)
+		// a nil error is no error
+		r := sx("errors_is", args[0].T, args[1].T)
+		u.assume(st, implies(eq(args[0].T, "A_nil"), eq(r, eq(args[1].T, "A_nil"))))
+		return []Val{{r, tBool, ""}}, true
 	}
 	_ = sort.Strings
 	initHeapModels()
@@ -1549,16 +1617,29 @@ func lockModel(op string, kind int) modelFn {
 
 // closurePred symbolically evaluates a pure, loop-free, single-argument closure on term x and returns its boolean result term.
 func (fr *Frame) closurePred(st *State, ci *closInfo, x Val) (string, bool) {
+	return fr.closureTerm(st, ci, []Val{x})
+}
+
+// closureTerm: the value a pure, loop-free closure returns for the given arguments, as a term.
+func (fr *Frame) closureTerm(st *State, ci *closInfo, xs []Val) (string, bool) {
 	u := fr.u
 	fn := ci.fn
-	if fn.Blocks == nil || len(findLoops(fn)) > 0 || len(fn.Params) != 1 || instrCount(fn) > 80 {
+	dbg := func(why string) {
+		if os.Getenv("GOWP_DEBUG_PURE") != "" {
+			fmt.Fprintln(os.Stderr, "closureTerm", fn.Name(), "fails:", why)
+		}
+	}
+	if fn.Blocks == nil || len(findLoops(fn)) > 0 || len(fn.Params) != len(xs) || instrCount(fn) > 80 {
+		dbg("shape")
 		return "", false
 	}
 	savedPure, savedBody, savedObls, savedFail := u.pure, len(u.body), len(u.obls), u.pureFail
 	u.pure++
 	u.pureFail = false
 	sub := u.newFrame(fn, fr)
-	sub.vals[fn.Params[0]] = x
+	for i, x := range xs {
+		sub.vals[fn.Params[i]] = x
+	}
 	for i, fv := range fn.FreeVars {
 		if i < len(ci.bindings) {
 			sub.vals[fv] = ci.bindings[i]
@@ -1574,16 +1655,19 @@ func (fr *Frame) closurePred(st *State, ci *closInfo, x Val) (string, bool) {
 	failed := u.pureFail
 	u.pure, u.pureFail = savedPure, savedFail
 	if failed {
+		dbg("needs a fresh value")
 		return "", false
 	}
 	u.body = u.body[:savedBody]
 	u.obls = u.obls[:savedObls]
 	for k := range wrote {
-		if !isLocalName(k) && k != "$alloc" {
+		if !isLocalName(strings.TrimPrefix(k, "!")) && k != "$alloc" {
+			dbg("writes " + k)
 			return "", false // not pure
 		}
 	}
 	if len(sub.rets) == 0 {
+		dbg("no return")
 		return "", false
 	}
 	term := sub.rets[len(sub.rets)-1].vals[0].T
